@@ -492,7 +492,7 @@ impl<'a> Ctl<'a> {
             let serving = self.ready_seen.len() >= self.scn.workers;
             let ok = match self.scn.env[self.env_pc] {
                 // "once the server is serving"
-                EnvAct::Signal(_) => serving && self.main_in_join,
+                EnvAct::Signal(_) => serving,
                 _ => serving,
             };
             if ok {
@@ -1210,4 +1210,316 @@ pub fn flood_lasso(ctx: &Ctx) -> Result<Value, String> {
         }
     }
     Ok(json!({"runs": out, "executions": execs, "rounds": rounds_total, "steps": steps_total}))
+}
+
+
+// ---------------------------------------------------------------------------------------------
+// Lifecycle model (TLA+, checked by TLC) bound to the implementation: every transition of the
+// model's reachable state graph is replayed against the real process under the controller, and at
+// every step the set of enabled actors of the implementation must equal the model's.
+
+pub struct ModelGraph {
+    /// per node: actor -> program counter as the model sees it
+    pub pcs: BTreeMap<String, BTreeMap<String, String>>,
+    pub init: String,
+    pub edges: BTreeMap<String, Vec<(String, String)>>, // node -> [(actor, next node)]
+    pub states: usize,
+    pub transitions: usize,
+}
+
+fn actor_of_label(l: &str) -> Option<String> {
+    match l {
+        "Main" => Some("main".into()),
+        "Reporter" => Some("stats-reporting".into()),
+        "Env" => Some("env".into()),
+        "Terminated" => None,
+        x => x.strip_prefix('W').and_then(|r| r.strip_suffix("Step")).map(|i| format!("worker-{}", i)),
+    }
+}
+
+/// Generate the model for (n, stats), run TLC (invariants + liveness), return its state graph.
+pub fn tlc_lifecycle(n: usize, stats: bool) -> Result<ModelGraph, String> {
+    let vd = crate::ev::verif_dir();
+    let dir = scratch_dir();
+    let st = std::process::Command::new("python3")
+        .arg(format!("{}/models/gen_lifecycle.py", vd))
+        .arg(n.to_string())
+        .arg(if stats { "1" } else { "0" })
+        .arg(&dir)
+        .status()
+        .map_err(|e| format!("gen_lifecycle.py: {}", e))?;
+    if !st.success() {
+        return Err("gen_lifecycle.py failed".into());
+    }
+    let out = std::process::Command::new("tlc")
+        .current_dir(&dir)
+        .args(["-dump", "dot,actionlabels", "graph.dot", "-workers", "2", "Lifecycle.tla"])
+        .output()
+        .map_err(|e| format!("tlc: {}", e))?;
+    let text = String::from_utf8_lossy(&out.stdout).to_string();
+    if !text.contains("Model checking completed. No error has been found.") {
+        let _ = std::fs::remove_dir_all(&dir);
+        return Err(format!("TLC did not verify the lifecycle model (n={}, stats={}): {}", n, stats, text.lines().filter(|l| l.contains("Error") || l.contains("violated")).take(4).collect::<Vec<_>>().join(" | ")));
+    }
+    let dot = std::fs::read_to_string(dir.join("graph.dot")).map_err(|e| format!("graph.dot: {}", e))?;
+    let _ = std::fs::remove_dir_all(&dir);
+    let mut init = String::new();
+    let mut edges: BTreeMap<String, Vec<(String, String)>> = BTreeMap::new();
+    let mut nodes: BTreeSet<String> = BTreeSet::new();
+    let mut pcs: BTreeMap<String, BTreeMap<String, String>> = BTreeMap::new();
+    let mut transitions = 0;
+    for line in dot.lines() {
+        let t = line.trim();
+        let first = t.split_whitespace().next().unwrap_or("");
+        if first.is_empty() || !(first.starts_with('-') || first.chars().next().unwrap().is_ascii_digit()) {
+            continue;
+        }
+        if t.contains("->") {
+            let mut it = t.split_whitespace();
+            let from = it.next().unwrap().to_string();
+            it.next();
+            let to = it.next().unwrap().to_string();
+            let label = t.split("label=\"").nth(1).and_then(|r| r.split('"').next()).unwrap_or("");
+            if let Some(a) = actor_of_label(label) {
+                edges.entry(from.clone()).or_default().push((a, to.clone()));
+                transitions += 1;
+            }
+            nodes.insert(from);
+            nodes.insert(to);
+        } else {
+            nodes.insert(first.to_string());
+            if t.contains("style = filled") && init.is_empty() {
+                init = first.to_string();
+            }
+            // program counters from the state label: mpc = "..", rpc = "..", wpc = (0 :> ".." @@ 1 :> "..")
+            let label = t.split("label=\"").nth(1).unwrap_or("");
+            let label = label.split("\",").next().unwrap_or(label);
+            let grab = |var: &str| -> Option<String> { label.split(&format!("{} = \\\"", var)).nth(1).and_then(|r| r.split("\\\"").next()).map(|x| x.to_string()) };
+            let mut m: BTreeMap<String, String> = BTreeMap::new();
+            if let Some(v) = grab("mpc") {
+                m.insert("main".into(), v);
+            }
+            if let Some(v) = grab("rpc") {
+                m.insert("stats-reporting".into(), v);
+            }
+            if let Some(w) = label.split("wpc = ").nth(1) {
+                let w = w.split("\\n").next().unwrap_or(w);
+                for part in w.split(":>").skip(1).enumerate() {
+                    let idx = part.0;
+                    if let Some(v) = part.1.split("\\\"").nth(1) {
+                        m.insert(format!("worker-{}", idx), v.to_string());
+                    }
+                }
+            }
+            pcs.insert(first.to_string(), m);
+        }
+    }
+    if init.is_empty() {
+        return Err("could not find the initial state in TLC's dump".into());
+    }
+    Ok(ModelGraph { pcs, init, edges, states: nodes.len(), transitions })
+}
+
+/// Replay one path of actor names; compare enabled sets at every step. Returns the first mismatch.
+fn replay_named(scn: &Scenario, slot: &Slot, g: &ModelGraph, path: &[(String, String)]) -> Result<Option<String>, String> {
+    let id = EXEC_ID.fetch_add(1, Relaxed);
+    let mut c = Ctl::start(scn, slot, id)?;
+    c.wait_for("main at its first point", &|c: &Ctl| c.settled("main"))?;
+    let mut node = g.init.clone();
+    let model_enabled = |node: &String| -> BTreeSet<String> { g.edges.get(node).map(|v| v.iter().map(|e| e.0.clone()).collect()).unwrap_or_default() };
+    // where the implementation's threads are, in the model's vocabulary
+    fn impl_pcs(c: &mut Ctl, n: usize, stats: bool) -> BTreeMap<String, String> {
+        let mut m = BTreeMap::new();
+        let dead = c.exited().is_some();
+        let mut names = vec!["main".to_string()];
+        names.extend((0..n).map(|i| format!("worker-{}", i)));
+        if stats {
+            names.push("stats-reporting".into());
+        }
+        for name in names {
+            let v = match c.threads.get(&name) {
+                None => "none".to_string(),
+                Some(t) => {
+                    if let Some(p) = &t.parked {
+                        p.0.clone()
+                    } else if t.exited.is_some() {
+                        "exited".to_string()
+                    } else if name == "main" && c.main_in_join {
+                        "joining".to_string()
+                    } else {
+                        "running".to_string()
+                    }
+                }
+            };
+            m.insert(name.clone(), if dead && name == "main" { "exited".to_string() } else { v });
+        }
+        m
+    }
+    let model_pcs = |node: &String| -> BTreeMap<String, String> {
+        let mut m = g.pcs.get(node).cloned().unwrap_or_default();
+        if !scn.stats {
+            m.remove("stats-reporting");
+        }
+        m
+    };
+    for (k, (actor, next)) in path.iter().enumerate() {
+        let imp: BTreeSet<String> = if c.exited().is_some() { BTreeSet::new() } else { c.enabled().iter().map(|a| a.name()).collect() };
+        let mo = model_enabled(&node);
+        if imp != mo {
+            c.proc_.kill();
+            return Ok(Some(format!("step {}: model enables {:?}, implementation enables {:?}", k, mo, imp)));
+        }
+        let (ip, mp) = (impl_pcs(&mut c, scn.workers, scn.stats), model_pcs(&node));
+        if ip != mp {
+            c.proc_.kill();
+            return Ok(Some(format!("step {}: model state {:?}, implementation threads {:?}", k, mp, ip)));
+        }
+        let a = match actor.as_str() {
+            "main" => Actor::Main,
+            "stats-reporting" => Actor::Reporter,
+            "env" => Actor::Env,
+            w => Actor::Worker(w.trim_start_matches("worker-").parse().unwrap_or(0)),
+        };
+        if a == Actor::Env {
+            c.do_env()?;
+        } else {
+            c.release(&a)?;
+        }
+        node = next.clone();
+    }
+    // after the last step
+    let exited = c.exited();
+    let imp: BTreeSet<String> = if exited.is_some() { BTreeSet::new() } else { c.enabled().iter().map(|a| a.name()).collect() };
+    let mo = model_enabled(&node);
+    let mut res = None;
+    if imp != mo {
+        res = Some(format!("after the last step: model enables {:?}, implementation enables {:?}", mo, imp));
+    }
+    if exited.is_none() {
+        let (ip, mp) = (impl_pcs(&mut c, scn.workers, scn.stats), model_pcs(&node));
+        if ip != mp {
+            res = Some(format!("after the last step: model state {:?}, implementation threads {:?}", mp, ip));
+        }
+    }
+    if mo.is_empty() {
+        // terminal model state: the process must have exited with status 0 and without panic text
+        match exited {
+            Some((Some(0), _)) => {
+                if c.proc_.stderr().contains("panicked") {
+                    res = Some("process exited 0 but printed panic text".into());
+                }
+            }
+            other => res = Some(format!("model is in its terminal state but the process status is {:?}", other)),
+        }
+    }
+    c.proc_.kill();
+    Ok(res)
+}
+
+pub fn lifecycle_conformance(ctx: &Ctx, n: usize, stats: bool) -> Result<Value, String> {
+    let g = tlc_lifecycle(n, stats)?;
+    // shortest path (by BFS) to every node
+    let mut parent: BTreeMap<String, (String, String)> = BTreeMap::new(); // node -> (prev node, actor)
+    let mut order = vec![g.init.clone()];
+    let mut seen: BTreeSet<String> = [g.init.clone()].into_iter().collect();
+    let mut qi = 0;
+    while qi < order.len() {
+        let u = order[qi].clone();
+        qi += 1;
+        for (a, v) in g.edges.get(&u).cloned().unwrap_or_default() {
+            if seen.insert(v.clone()) {
+                parent.insert(v.clone(), (u.clone(), a));
+                order.push(v);
+            }
+        }
+    }
+    let path_to = |node: &String| -> Vec<(String, String)> {
+        let mut p = vec![];
+        let mut cur = node.clone();
+        while let Some((prev, a)) = parent.get(&cur) {
+            p.push((a.clone(), cur.clone()));
+            cur = prev.clone();
+        }
+        p.reverse();
+        p
+    };
+    // one path per transition: shortest path to its source + the transition; drop proper prefixes
+    let mut paths: Vec<Vec<(String, String)>> = vec![];
+    for (u, outs) in &g.edges {
+        for (a, v) in outs {
+            let mut p = path_to(u);
+            p.push((a.clone(), v.clone()));
+            paths.push(p);
+        }
+    }
+    let keys: BTreeSet<Vec<String>> = paths.iter().map(|p| p.iter().map(|e| format!("{}>{}", e.0, e.1)).collect()).collect();
+    let is_prefix_of_other = |p: &Vec<String>| keys.iter().any(|q| q.len() > p.len() && q[..p.len()] == p[..]);
+    let paths: Vec<Vec<(String, String)>> = paths.into_iter().filter(|p| !is_prefix_of_other(&p.iter().map(|e| format!("{}>{}", e.0, e.1)).collect())).collect();
+    let scn = Scenario {
+        name: format!("lifecycle-model-n{}-stats{}", n, stats as u8),
+        workers: n,
+        health: false,
+        stats,
+        batch_size: 2,
+        env: vec![EnvAct::Signal(libc::SIGINT)],
+        idle_iteration: false,
+        horizon: 1000,
+        expect: Expect::CleanExit,
+        probe_at_end: false,
+    };
+    let mismatches: Mutex<Vec<Value>> = Mutex::new(vec![]);
+    let failed: Mutex<Option<String>> = Mutex::new(None);
+    let next = AtomicU64::new(0);
+    let nthreads = crate::util::nthreads().min(16).min(paths.len().max(1));
+    std::thread::scope(|s| {
+        for t in 0..nthreads {
+            let paths = &paths;
+            let g = &g;
+            let scn = &scn;
+            let mismatches = &mismatches;
+            let failed = &failed;
+            let next = &next;
+            std::thread::Builder::new()
+                .name(format!("conf-{}", t))
+                .spawn_scoped(s, move || {
+                    let slot = Slot::new(2);
+                    loop {
+                        let k = next.fetch_add(1, Relaxed) as usize;
+                        if k >= paths.len() || failed.lock().unwrap().is_some() {
+                            return;
+                        }
+                        let mut attempt = 0;
+                        loop {
+                            match replay_named(scn, &slot, g, &paths[k]) {
+                                Ok(None) => break,
+                                Ok(Some(m)) => {
+                                    mismatches.lock().unwrap().push(json!({"path": paths[k].iter().map(|e| e.0.clone()).collect::<Vec<_>>(), "mismatch": m}));
+                                    break;
+                                }
+                                Err(e) if e.contains("Address already in use") && attempt < 2 => {
+                                    attempt += 1;
+                                    continue;
+                                }
+                                Err(e) => {
+                                    *failed.lock().unwrap() = Some(e);
+                                    return;
+                                }
+                            }
+                        }
+                    }
+                })
+                .expect("spawn");
+        }
+    });
+    if let Some(e) = failed.lock().unwrap().take() {
+        return Err(e);
+    }
+    let mm = mismatches.lock().unwrap().clone();
+    for m in mm.iter().take(5) {
+        ctx.violation("model-implementation-divergence", "lifecycle", if stats { "client_stats on" } else { "client_stats off" },
+            json!({"kind":"model-trace","num_workers":n,"client_stats":stats,"path":m["path"],"message":m["mismatch"]}));
+    }
+    Ok(json!({"model": "models/gen_lifecycle.py (TLA+), checked by TLC: TypeOK, NoWorkerLostBeforeSignal, CleanJoin, Termination (liveness under weak fairness)",
+              "num_workers": n, "client_stats": stats, "model_states": g.states, "model_transitions": g.transitions,
+              "traces_replayed": paths.len(), "transitions_covered": g.transitions, "divergences": mm.len()}))
 }
